@@ -21,6 +21,8 @@ def c06(case, f):
             return "KF-11"
         if b in feat["rename_old"]:
             return "KF-12"
+        if b in feat["nested_group_first_aliases"]:
+            return "KF-36"
         if b in feat["mixed_comma_join_names"]:
             return "KF-01"
         if b in feat["select_subquery_tables"]:
